@@ -52,6 +52,9 @@ def gen_cases(rng, n, tier):
     for i in range(max(12, n // 12)):
         prog = [op for op in pC06.gen_sp_program(rng) if op[0] not in ('conn_rollback', 'rawlink', 'rawunlink', 'manualtx', 'sp_fail')]
         out.append(dict(kind='H', cfg=dict(spcfgs[(i * 5) % len(spcfgs)]), prog=prog, twin_only=True))
+    # objects the flush itself deletes (delete-orphan children, cascades) that carry an unloaded (deferred) column
+    for i in range(max(10, n // 12)):
+        out.append(dict(kind='O', cfg=dict(shape='orphan', strategy='validity' if i % 2 else 'subquery'), prog=gen_orphan_prog(rng)))
     for i in range(max(10, n // 10)):
         cfg = dict(B.all_cfgs('blog')[i % 32])
         cfg['twin'] = False
@@ -205,6 +208,134 @@ def _worker_R(chunk):
     return out
 
 
+# ---- kind 'O': a parent with delete-orphan children that carry a deferred column; twin run without the recorder ----
+def build_orphan(cfg):
+    import sqlalchemy as sa
+
+    def build(env, Base, opts):
+        v = {'__versioned__': dict(opts)} if opts is not None else {}
+        Parent = type('Parent', (Base,), dict(
+            __tablename__='parent', id=sa.Column(sa.Integer, primary_key=True, autoincrement=False),
+            a=sa.Column(sa.Integer), **v))
+        Child = type('Child', (Base,), dict(
+            __tablename__='child', id=sa.Column(sa.Integer, primary_key=True, autoincrement=False),
+            a=sa.Column(sa.Integer), body=sa.orm.deferred(sa.Column(sa.Integer)),
+            parent_id=sa.Column(sa.Integer, sa.ForeignKey('parent.id')),
+            parent=sa.orm.relationship(Parent, backref=sa.orm.backref('children', cascade='all, delete-orphan')),
+            **({'__versioned__': dict(opts)} if opts is not None else {})))
+        env.classes = [Parent, Child]
+        env.assoc = []
+    return build
+
+
+def gen_orphan_prog(rng):
+    prog = [['addp', 1], ['addp', 2], ['addc', 1, 1], ['addc', 2, 1], ['addc', 3, 2], ['commit']]
+    for _ in range(rng.randint(3, 8)):
+        r = rng.random()
+        if r < 0.30:
+            prog.append(['orphan', rng.choice([1, 2, 3, 4])])        # removed from its parent's collection: deleted by the flush itself
+        elif r < 0.45:
+            prog.append(['setp', rng.choice([1, 2]), rng.choice([0, 1, 2])])
+        elif r < 0.60:
+            prog.append(['setc', rng.choice([1, 2, 3, 4]), rng.choice([0, 1, 2])])
+        elif r < 0.70:
+            prog.append(['addc', rng.choice([4, 5]), rng.choice([1, 2])])
+        elif r < 0.78:
+            prog.append(['delp', rng.choice([1, 2])])                # cascades to the children
+        elif r < 0.88:
+            prog.append(['flush'])
+        else:
+            prog.append(['commit'])
+    prog.append(['commit'])
+    return prog
+
+
+def _run_orphan(env, prog):
+    import sqlalchemy as sa
+    Parent, Child = env.classes
+    s = env.session()
+    outcomes = []
+    pending = {}
+
+    def get(cls, key):
+        o = pending.get((cls, key))
+        return o if o is not None else s.get(cls, key)
+    try:
+        for op in prog:
+            try:
+                k = op[0]
+                if k == 'addp':
+                    if get(Parent, op[1]) is not None:
+                        outcomes.append('skip')
+                        continue
+                    pending[(Parent, op[1])] = Parent(id=op[1], a=0)
+                    s.add(pending[(Parent, op[1])])
+                elif k == 'addc':
+                    p_ = get(Parent, op[2])
+                    if p_ is None or get(Child, op[1]) is not None:
+                        outcomes.append('skip')
+                        continue
+                    pending[(Child, op[1])] = Child(id=op[1], a=0, body=op[1] * 10)
+                    p_.children.append(pending[(Child, op[1])])
+                elif k == 'orphan':
+                    c_ = s.get(Child, op[1])                       # body stays unloaded (deferred)
+                    if c_ is None or c_.parent is None:
+                        outcomes.append('skip')
+                        continue
+                    c_.parent.children.remove(c_)
+                elif k in ('setp', 'setc'):
+                    o = s.get(Parent if k == 'setp' else Child, op[1])
+                    if o is None:
+                        outcomes.append('skip')
+                        continue
+                    o.a = op[2]
+                elif k == 'delp':
+                    o = s.get(Parent, op[1])
+                    if o is None:
+                        outcomes.append('skip')
+                        continue
+                    s.delete(o)
+                elif k == 'flush':
+                    s.flush()
+                    pending.clear()
+                    s.expire_all()        # objects are loaded again when used: the deferred column stays unloaded
+                elif k == 'commit':
+                    s.commit()
+                    pending.clear()
+                outcomes.append('ok')
+            except Exception as e:
+                outcomes.append('error:' + type(e).__name__)
+                pending.clear()
+                s.rollback()
+        s.rollback()
+        conn = s.connection()
+        live = [[0] + list(r) for r in conn.execute(sa.select(Parent.__table__).order_by(Parent.__table__.c.id))] + \
+               [[1] + list(r) for r in conn.execute(sa.select(Child.__table__).order_by(Child.__table__.c.id))]
+        s.rollback()
+        return outcomes, live
+    finally:
+        s.close()
+
+
+def _worker_O(chunk):
+    cfg, items = chunk
+    out = []
+    for idx, case in items:
+        try:
+            with E.Env(options=hist.options_for(cfg), plugins=hist.plugins_for(cfg), build=build_orphan(cfg)) as env:
+                o1, l1 = _run_orphan(env, case['prog'])
+            with E.Env(build=build_orphan(cfg), versioned=False) as env:
+                o2, l2 = _run_orphan(env, case['prog'])
+            out.append((idx, dict(kind='O', trace=[], snaps=[], ccfg=[], outcomes=o1, plain_outcomes=o2, final_live=l1, plain_live=l2,
+                                  exc=None, plain_exc=None, changed_entities=None)))
+        except Exception as e:
+            import traceback
+            out.append((idx, dict(kind='O', trace=[], snaps=[], ccfg=[], outcomes=[], plain_outcomes=[], final_live=None,
+                                  plain_live=None, changed_entities=None,
+                                  exc='%s: %s %s' % (type(e).__name__, e, traceback.format_exc()[-400:]))))
+    return out
+
+
 def run_impl(cases):
     res = [None] * len(cases)
     h_idx = [i for i, c in enumerate(cases) if c['kind'] == 'H']
@@ -221,10 +352,17 @@ def run_impl(cases):
     for part in E.pmap(_worker_R, chunks):
         for idx, o in part:
             res[idx] = o
+    o_idx = [i for i, c in enumerate(cases) if c['kind'] == 'O']
+    chunks = [(cases[i]['cfg'], [(i, cases[i])]) for i in o_idx]
+    for part in E.pmap(_worker_O, chunks):
+        for idx, o in part:
+            res[idx] = o
     return res
 
 
 def encode(case, obs):
+    if case['kind'] == 'O':
+        return '(C07_T %s)' % hist.encode_case(case, obs)
     if case['kind'] == 'H':
         if case.get('twin_only') and any(ev['ev'].startswith('sp') for ev in obs.get('trace') or []):
             # twin-only cases are judged on outcomes, application tables and dangling ids: the savepoint marks (and
@@ -239,6 +377,8 @@ def encode(case, obs):
 
 
 def nontrivial(case, obs):
+    if case['kind'] == 'O':
+        return any(op[0] in ('orphan', 'delp') for op in case['prog']) and 'ok' in (obs.get('outcomes') or [])
     if case['kind'] == 'R':
         return bool(obs.get('before')) and obs['before']['live'] != obs['after']['live']
     prog = case['prog']
@@ -250,12 +390,16 @@ def nontrivial(case, obs):
 
 
 def features(case, obs):
+    if case['kind'] == 'O':
+        return ['kind=O', 'strategy=' + case['cfg']['strategy'], 'orphans=%d' % sum(1 for op in case['prog'] if op[0] == 'orphan')]
     if case['kind'] == 'R':
         return ['kind=R', 'listeners_left=%s' % obs.get('listeners')]
     return ['kind=H'] + B.features_counted(case, obs)
 
 
 def shrink(case):
+    if case['kind'] == 'O':
+        return [dict(case, prog=case['prog'][:i] + case['prog'][i + 1:]) for i in range(6, len(case['prog']))]
     if case['kind'] == 'R':
         out = []
         for i in range(len(case['prog2'])):
@@ -273,6 +417,10 @@ def shrink(case):
 
 
 def describe(case, obs):
+    if case['kind'] == 'O':
+        return dict(kind='O', cfg=case['cfg'], program=case['prog'], outcomes=obs.get('outcomes'),
+                    unversioned_outcomes=obs.get('plain_outcomes'), tables=obs.get('final_live'),
+                    unversioned_tables=obs.get('plain_live'), harness_exception=obs.get('exc'))
     if case['kind'] == 'R':
         return dict(kind='R', cfg=case['cfg'], versioned_prefix=case['prog'], after_remove_versioning=case['prog2'], observed=obs)
     d = B.describe_short(case, obs)
